@@ -337,6 +337,11 @@ def _run_scenario(spec, res):
                         bv = float("nan")
                     if bv != bv or bv in (float("inf"), float("-inf")):
                         continue    # undefined at the witness: not a meaningful canary cell
+                    try:
+                        if ev.value(wrong) == bv:
+                            continue    # the perturbation vanishes here (zero radicand): not a meaningful canary cell
+                    except Exception:
+                        continue
                     canary_tries += 1
                     if model is not None and _canary_refuted(eng, eqv(a, wrong), model):
                         res.canaries += 1
